@@ -124,10 +124,16 @@ def lookupVar (c : EvalCtx) (name : String) : M Val := do
     return (lookupArg name (← getRest).gctx).getD .none
   return (lookupArg name c.ctx).getD .none
 
-def attrOf (v : Val) (a : String) : M Val := do
+/-- attribute access as `simpleeval` does it. `lenient` = the dict is an `AttributeDict` (a `$variable` holding a dict, or a
+    nested dict reached from one): a missing key is `None`; a plain dict (e.g. `event.arguments`) falls back to item access
+    and a missing key raises. -/
+def attrOf (v : Val) (a : String) (lenient : Bool := false) : M Val := do
   if a.startsWith "_" then valueErr s!"attribute {a}"
   match v with
-  | .dict kvs => return (lookupArg a kvs).getD .none
+  | .dict kvs =>
+    match lookupArg a kvs with
+    | some x => return x
+    | none => if lenient then return .none else valueErr s!"attribute {a} does not exist"
   | .ref "flow" uid =>
     match ← getInstX? uid with
     | none => unsupported "attribute of a flow instance that was cleaned up"
@@ -185,6 +191,7 @@ def attrOf (v : Val) (a : String) : M Val := do
   | .str _ | .int _ | .bool _ | .none | .flt _ _ | .list _ | .set _ => valueErr s!"no attribute {a}"
   | _ => unsupported s!"attribute {a} of an opaque value"
 
+mutual
 def evalExpr (c : EvalCtx) : Nat → Expr → M Val
   | 0, _ => throw .outOfFuel
   | fuel + 1, e =>
@@ -206,7 +213,9 @@ def evalExpr (c : EvalCtx) : Nat → Expr → M Val
       return .str out
     | .var n => lookupVar c n
     | .name n => valueErr s!"name {n} is not defined"
-    | .attr e' a => do attrOf (← evalExpr c fuel e') a
+    | .attr e' a => do
+      let (v, lenient) ← evalBase c fuel e'
+      attrOf v a lenient
     | .index e' i => do
       let v ← evalExpr c fuel e'
       let iv ← evalExpr c fuel i
@@ -327,6 +336,23 @@ def evalExpr (c : EvalCtx) : Nat → Expr → M Val
         | _ => unsupported "non-string dict key"
       return .dict out
     | .unsupported why => unsupported s!"expression: {why}"
+
+/-- value of the base of an attribute access, with the flag "this is an `AttributeDict`" (a `$variable` whose value is a
+    dict, or a dict reached from one by attribute access) -/
+def evalBase (c : EvalCtx) : Nat → Expr → M (Val × Bool)
+  | 0, _ => throw .outOfFuel
+  | fuel + 1, e =>
+    let isDict : Val → Bool := fun v => match v with | .dict _ => true | _ => false
+    match e with
+    | .var n => do
+      let v ← lookupVar c n
+      return (v, isDict v)
+    | .attr b a => do
+      let (bv, bl) ← evalBase c fuel b
+      let v ← attrOf bv a bl
+      return (v, bl && isDict v)
+    | other => do return (← evalExpr c fuel other, false)
+end
 
 def exprFuel : Nat := 64
 
